@@ -106,6 +106,8 @@ func runChild(role string, args []string) {
 		ex = ImplCodec{}
 	case "lib":
 		ex = NewImplLib()
+	case "cmd":
+		ex = NewImplCmd()
 	default:
 		if !runChildOther(role, args) {
 			fmt.Fprintln(os.Stderr, "unknown child role", role)
@@ -129,7 +131,7 @@ func runChild(role string, args []string) {
 		runtime.ReadMemStats(&ms)
 		delta := ms.TotalAlloc - before
 		// proportion: 1 MiB of slack plus 64 bytes per input byte (hex halves the length)
-		if delta > 1<<20+64*uint64(len(line)) {
+		if role != "cmd" && delta > 1<<20+64*uint64(len(line)) {
 			obs = fmt.Sprintf("alloc!%dMiB %s", delta>>20, obs)
 		}
 		out.WriteString(obs)
